@@ -270,3 +270,27 @@ Definition decode (text : list N) : option ctree :=
   | Some ts => cparse ts
   | None => None
   end.
+
+(* ---- which parentheses the grouping of a calculation needs when it is written out ---- *)
+Local Open Scope nat_scope.
+Definition need_paren_right (o o2 : cop) : bool :=
+  Nat.ltb (cprec o2) (cprec o)
+  || (Nat.eqb (cprec o2) (cprec o) && match o with CSub | CDiv => true | _ => false end).
+Definition need_paren_left (o o1 : cop) : bool := Nat.ltb (cprec o1) (cprec o).
+
+(* Re-association that does not change the value of a calculation:
+   a + (b + c) = (a + b) + c,  a + (b - c) = (a + b) - c,  a * (b * c) = (a * b) * c,
+   a * (b / c) = (a * b) / c.  [lnorm] moves every such right-nested chain to the left. *)
+Fixpoint attach (x : ctree) (o : cop) (y : ctree) : ctree :=
+  match y with
+  | CBin o2 y1 y2 =>
+      if Nat.eqb (cprec o) (cprec o2) && match o with CAdd | CMul => true | _ => false end
+      then CBin o2 (attach x o y1) y2
+      else CBin o x y
+  | _ => CBin o x y
+  end.
+Fixpoint lnorm (t : ctree) : ctree :=
+  match t with
+  | CBin o l r => attach (lnorm l) o (lnorm r)
+  | t => t
+  end.
